@@ -10,7 +10,9 @@ use rustc_middle::ty::{self, TyCtxt};
 fn span_line(tcx: TyCtxt<'_>, sp: rustc_span::Span) -> (i64, bool) {
     let sm = tcx.sess.source_map();
     let src = sp.source_callsite();
-    (sm.lookup_char_pos(src.lo()).line as i64, sp.from_expansion())
+    let local_macro = sp.from_expansion()
+        && sp.ctxt().outer_expn_data().macro_def_id.map(|d| d.is_local()).unwrap_or(false);
+    (sm.lookup_char_pos(src.lo()).line as i64, sp.from_expansion() && !local_macro)
 }
 
 /// fields of crate-local ADTs that a place projects through: [(adt, variant, field)], plus
